@@ -173,7 +173,11 @@ func (w *World) VerifyFunc(key string) (vc *VC, err error) {
 				continue
 			}
 			vc.assume(True, ax)
-			vc.note("uses lemma %s (proved separately)", u)
+			if w.isAxiom(u) {
+				vc.note("unchecked assumption (axiom %s)", u)
+			} else {
+				vc.note("uses lemma %s (proved separately)", u)
+			}
 		}
 	}
 	// preconditions
@@ -224,6 +228,10 @@ func (w *World) VerifyFunc(key string) (vc *VC, err error) {
 			nm := cl.Label
 			if nm == "" {
 				nm = fmt.Sprintf("%d", k+1)
+			}
+			if cl.Assumed {
+				vc.note("unchecked assumption: postcondition of %s taken on trust: %s", fname, cl.Src)
+				continue
 			}
 			if o := vc.oblige("post", fmt.Sprintf("post/%s/%s", fname, nm), clauseProps(cl, fr.props()), out.reach, t, fr.pos(fn.Pos())); o != nil {
 				o.Src = cl.Src
@@ -653,6 +661,15 @@ func (w *World) globalWritten(g *ssa.Global) bool {
 					}
 				}
 			}
+		}
+	}
+	return false
+}
+
+func (w *World) isAxiom(label string) bool {
+	for _, l := range w.cons.Lemmas {
+		if (l.Label == label || strings.HasSuffix(l.Label, ":"+label)) && l.Axiom {
+			return true
 		}
 	}
 	return false
